@@ -41,7 +41,10 @@ def check_history(start, calls):
                     return f"inside set({assignments!r}): get({spelling!r}) = {got!r}, expected {value!r}; config {cfg!r}"
     while stack:
         ctx, before = stack.pop()
-        ctx.__exit__(None, None, None)
+        try:
+            ctx.__exit__(None, None, None)
+        except Exception as e:  # noqa
+            return f"leaving the context raised {type(e).__name__}: {e}; on entry {before!r}, now {cfg!r}"
         if cfg != before:
             return f"leaving the context did not restore the configuration: on entry {before!r}, after exit {cfg!r}"
     return None
@@ -65,7 +68,10 @@ def check_arg_and_kwargs(start, arg, kw):
         return f"set({arg!r}, **{kw!r}) raised {type(e).__name__}: {e}, although the same assignments one at a time succeed"
     if cfg != ref:
         return f"set({arg!r}, **{kw!r}) gives {cfg!r}; the same assignments one at a time (mapping first, then keywords) give {ref!r}"
-    ctx.__exit__(None, None, None)
+    try:
+        ctx.__exit__(None, None, None)
+    except Exception as e:  # noqa
+        return f"leaving set({arg!r}, **{kw!r}) raised {type(e).__name__}: {e}"
     if cfg != before:
         return f"leaving set({arg!r}, **{kw!r}) did not restore the configuration: {before!r} -> {cfg!r}"
     return None
@@ -116,6 +122,36 @@ def set_sweep(tier, seed=0):
                 msg = check_arg_and_kwargs(start, arg, {kk: 2})
                 if msg and len(fails) < 5:
                     fails.append(rtc.Failure("config.set", {"start": start, "calls": [arg], "kwargs": {kk: 2}}, "ensures", "C17-scoped-and-atomic", msg))
+    # key components with more than one separator: every spelling (all hyphens, all underscores, or a mix inside one
+    # component) addresses the entry that is there, for set, get, update and environment collection
+    import dask.config as C
+    stored = ["chunk-size-tolerance", "chunk_size_tolerance"]
+    for base_key in stored:
+        for spelling in ["chunk-size-tolerance", "chunk_size_tolerance", "chunk_size-tolerance", "chunk-size_tolerance"]:
+            if "_" in base_key and "-" in spelling and "_" in spelling:
+                continue   # a mixed spelling is normalised towards hyphens only: it finds a hyphenated entry, not an underscored one
+            cases += 1
+            cfg = {"array": {base_key: 1.25, "other": 0}}
+            before = copy.deepcopy(cfg)
+            msg = None
+            try:
+                got = C.get("array." + spelling, config=cfg)
+                if got != 1.25:
+                    msg = f"get('array.{spelling}') = {got!r} with {before!r}"
+                if msg is None:
+                    with C.set({"array." + spelling: 2}, config=cfg):
+                        if cfg != {"array": {base_key: 2, "other": 0}}:
+                            msg = f"set({{'array.{spelling}': 2}}) on {before!r} gives {cfg!r}: the existing entry {base_key!r} should have been replaced"
+                    if msg is None and cfg != before:
+                        msg = f"leaving the context did not restore the configuration: {before!r} -> {cfg!r}"
+                if msg is None:
+                    u = C.update(copy.deepcopy(before), {"array": {spelling: 3}})
+                    if u != {"array": {base_key: 3, "other": 0}}:
+                        msg = f"update({before!r}, {{'array': {{{spelling!r}: 3}}}}) gives {u!r}"
+            except Exception as e:  # noqa
+                msg = f"{type(e).__name__}: {e} (spelling {spelling!r}, stored {base_key!r})"
+            if msg and len(fails) < 5:
+                fails.append(rtc.Failure("config.set", {"start": before, "calls": [{"array." + spelling: 2}], "mixed_spelling": True}, "ensures", "C17-scoped-and-atomic", msg))
     return {"function": "dask/config.py:set/get (real code)", "bounded": True,
             "bound": {"paths": PATHS, "values": [repr(v) for v in VALUES[:3]], "start configs": len(STARTS), "nesting depth": 2, "assignments per call": "1-2 (duplicates / scalar prefixes included)"},
             "cases": cases, "distinct_nontrivial": cases, "failures_found": len(fails), "wall_s": round(time.time() - t0, 2),
